@@ -200,17 +200,17 @@ func randPower(rng *rand.Rand) *big.Int {
 	}
 }
 
-func randTable(rng *rand.Rand, maxN int, universe uint32) table {
+func randTable(rng *rand.Rand, maxN int, universe uint32, sig vsig.Scheme) table {
 	n := 1 + rng.Intn(maxN)
 	t := table{}
 	for len(t) < n {
 		id := gpbft.ActorID(1 + rng.Intn(3*maxN))
-		t[id] = ent{id, randPower(rng), string(vsig.PubKey(universe, uint64(id)*16+uint64(rng.Intn(3))))}
+		t[id] = ent{id, randPower(rng), string(sig.PubKey(universe, uint64(id)*16+uint64(rng.Intn(3))))}
 	}
 	return t
 }
 
-func evolve(rng *rand.Rand, a table, maxN int, universe uint32) table {
+func evolve(rng *rand.Rand, a table, maxN int, universe uint32, sig vsig.Scheme) table {
 	b := table{}
 	for k, v := range a {
 		b[k] = ent{v.id, new(big.Int).Set(v.power), v.key}
@@ -221,7 +221,7 @@ func evolve(rng *rand.Rand, a table, maxN int, universe uint32) table {
 		case 0: // add
 			id := gpbft.ActorID(1 + rng.Intn(3*maxN))
 			if _, ok := b[id]; !ok {
-				b[id] = ent{id, randPower(rng), string(vsig.PubKey(universe, uint64(id)*16+uint64(rng.Intn(3))))}
+				b[id] = ent{id, randPower(rng), string(sig.PubKey(universe, uint64(id)*16+uint64(rng.Intn(3))))}
 			}
 		case 1: // remove (keep at least one)
 			if len(b) > 1 {
@@ -232,7 +232,7 @@ func evolve(rng *rand.Rand, a table, maxN int, universe uint32) table {
 			}
 		case 2: // re-key
 			for id, e := range b {
-				e.key = string(vsig.PubKey(universe, uint64(id)*16+3+uint64(rng.Intn(8))))
+				e.key = string(sig.PubKey(universe, uint64(id)*16+3+uint64(rng.Intn(8))))
 				b[id] = e
 				break
 			}
@@ -257,6 +257,7 @@ type aggProv struct {
 }
 
 type history struct {
+	sig      vsig.Scheme
 	rng      *rand.Rand
 	nn       gpbft.NetworkName
 	first    uint64
@@ -296,13 +297,13 @@ func (h *history) sign(c *certs.FinalityCertificate, es gpbft.PowerEntries, idxs
 	sort.Ints(s)
 	p := gpbft.Payload{Instance: c.GPBFTInstance, Round: 0, Phase: gpbft.DECIDE_PHASE, SupplementalData: c.SupplementalData, Value: c.ECChain}
 	msg := p.MarshalForSigning(nn)
-	agg, err := vsig.Backend{}.Aggregate(es.PublicKeys())
+	agg, err := h.sig.Aggregate(es.PublicKeys())
 	if err != nil {
 		panic(err)
 	}
 	sigs := make([][]byte, len(s))
 	for i, ix := range s {
-		sigs[i] = vsig.RawSign(es[ix].PubKey, msg)
+		sigs[i] = h.sig.RawSign(es[ix].PubKey, msg)
 	}
 	a, err := agg.Aggregate(s, sigs)
 	if err != nil {
@@ -341,20 +342,20 @@ func quorum(rng *rand.Rand, es gpbft.PowerEntries, minimal bool) []int {
 	return idxs
 }
 
-func genHistory(rng *rand.Rand, maxLen, maxN int, universe uint32) *history {
-	h := &history{rng: rng, nn: gpbft.NetworkName(fmt.Sprintf("net-%d", universe%3)), cidTable: map[cid.Cid]gpbft.PowerEntries{}, aggs: map[string][]aggProv{}}
+func genHistory(rng *rand.Rand, maxLen, maxN int, universe uint32, sig vsig.Scheme) *history {
+	h := &history{sig: sig, rng: rng, nn: gpbft.NetworkName(fmt.Sprintf("net-%d", universe%3)), cidTable: map[cid.Cid]gpbft.PowerEntries{}, aggs: map[string][]aggProv{}}
 	h.first = uint64(rng.Intn(50))
 	if rng.Intn(10) == 0 {
 		h.first = 0
 	}
-	cur := randTable(rng, maxN, universe)
+	cur := randTable(rng, maxN, universe, sig)
 	for {
 		sc, T := scaled(cur.canonical())
 		_ = sc
 		if T > 0 {
 			break
 		}
-		cur = randTable(rng, maxN, universe)
+		cur = randTable(rng, maxN, universe, sig)
 	}
 	n := 1 + rng.Intn(maxLen)
 	ptc := h.register(cur.canonical())
@@ -365,7 +366,7 @@ func genHistory(rng *rand.Rand, maxLen, maxN int, universe uint32) *history {
 		h.tables = append(h.tables, es)
 		var next table
 		for {
-			next = evolve(rng, cur, maxN, universe)
+			next = evolve(rng, cur, maxN, universe, sig)
 			if _, T := scaled(next.canonical()); T > 0 && len(next) > 0 {
 				break
 			}
@@ -723,7 +724,7 @@ func (h *history) corrupt(seq []*certs.FinalityCertificate, other *history, op, 
 func TestCheck(t *testing.T) {
 	run := vkit.New("C04", "main", "exploration")
 	run.SetRule("(A) certificate sequences: honestly generated chains (1..L certificates over evolving tables: add/remove/re-key/re-weight, dust and 2^200 powers, quorums incl. exactly-at-threshold) and single / paired corruptions (26 operators) at every position, validated by certs.ValidateFinalityCertificates with and without a caller base, compared with an independent reference (provenance-based aggregate check, own delta algebra, own quorum arithmetic) incl. the returned (next instance, chain, table) triple; (B) delta algebra: random table pairs and structurally near-valid deltas through MakePowerTableDiff/ApplyPowerTableDiffs vs the reference algebra with argument snapshots. distinct non-trivial = distinct (operator(s), position class, reference outcome, real outcome) for A and distinct (shape, outcome) for B")
-	run.Assume("stand-in signatures (vsig); aggregate validity decided by provenance; power-table CIDs are mapped back to the tables they were computed from",
+	run.Assume("stand-in signatures (vsig) except the histories counted under histories_with_production_bls, which are signed/validated with go-f3's blssig; aggregate validity decided by provenance; power-table CIDs are mapped back to the tables they were computed from",
 		"direction discipline: only 'real accepts what the reference rejects', 'real rejects an honest/reference-valid sequence', and 'wrong prefix triple' are violations")
 	var mu sync.Mutex
 	nA := run.N(6000, 150000)
@@ -733,8 +734,16 @@ func TestCheck(t *testing.T) {
 		if run.Thorough() && i%10 == 0 {
 			maxLen, maxN = 40, 60
 		}
-		h := genHistory(rng, maxLen, maxN, uint32(i))
-		other := genHistory(rand.New(rand.NewSource(run.SubSeed(int64(i))+1)), 4, maxN, uint32(i)+1_000_000)
+		var sig vsig.Scheme = vsig.StandIn{}
+		if i%40 == 39 && maxN <= 12 {
+			// a fixed share of the histories is signed and validated with go-f3's production BLS code (blssig)
+			sig = vsig.BLS()
+			mu.Lock()
+			run.Count("histories_with_production_bls", 1)
+			mu.Unlock()
+		}
+		h := genHistory(rng, maxLen, maxN, uint32(i), sig)
+		other := genHistory(rand.New(rand.NewSource(run.SubSeed(int64(i))+1)), 4, maxN, uint32(i)+1_000_000, sig)
 		for k, v := range other.cidTable {
 			h.cidTable[k] = v
 		}
@@ -759,7 +768,7 @@ func TestCheck(t *testing.T) {
 			prev := cloneEntries(h.tables[0])
 			prevSnap := cloneEntries(prev)
 			ref := h.refValidate(h.nn, prev, first, base, seq)
-			ni, chain, npt, err := certs.ValidateFinalityCertificates(vsig.Backend{}, h.nn, prev, first, base, seq...)
+			ni, chain, npt, err := certs.ValidateFinalityCertificates(h.sig, h.nn, prev, first, base, seq...)
 			run.Eval(1)
 			realOK := err == nil
 			posClass := "n/a"
@@ -841,13 +850,13 @@ func TestCheck(t *testing.T) {
 	nB := run.N(120000, 3000000)
 	bodyB := func(i int) {
 		rng := rand.New(rand.NewSource(run.SubSeed(int64(1_000_000 + i))))
-		a := randTable(rng, 14, 5)
+		a := randTable(rng, 14, 5, vsig.StandIn{})
 		var b table
 		if rng.Intn(3) == 0 {
-			b = randTable(rng, 14, 5)
+			b = randTable(rng, 14, 5, vsig.StandIn{})
 		} else {
-			b = evolve(rng, a, 14, 5)
-			b = evolve(rng, b, 14, 5)
+			b = evolve(rng, a, 14, 5, vsig.StandIn{})
+			b = evolve(rng, b, 14, 5, vsig.StandIn{})
 		}
 		ae, be := a.canonical(), b.canonical()
 		if rng.Intn(2) == 0 { // MakePowerTableDiff makes no assumption about order
